@@ -220,6 +220,11 @@ func init() {
 					if !c.Mine(idx) {
 						continue
 					}
+					if h1.Blocked {
+						// a cycle never returned (reported when it happened): this process is no longer usable
+						r.Capped, r.CapNote = true, "a coordination cycle never returned; the remaining pairs of this worker were skipped"
+						continue
+					}
 					with := &h1.Scenario{Opt: b.sc.Opt, Targets: b.sc.Targets}
 					bIdx := 1 - order
 					for cy := range b.sc.Cycles {
@@ -243,7 +248,7 @@ func init() {
 					}
 					if diff != "" {
 						// determinism: both runs repeated must give the same difference
-						for i := 0; i < 5; i++ {
+						for i := 0; i < 5 && !h1.Blocked; i++ {
 							_, _, d2 := c19RunPair(b.sc, with, bIdx)
 							if d2 != diff {
 								chk.Fatalf("HARNESS-NONDETERMINISM: C19 pair %d diverged on repeat", idx)
